@@ -118,7 +118,7 @@ func VerifHarness_C16_DeletionRoundTrip() {
 func VerifHarness_C16_InsertionStrict() {
 	var pj InsertionParametersJSON
 	pj.InputHash = verifNondetString("hash")
-	pj.StartIndex = verifNondetU32("start")
+	pj.StartIndex = 7
 	pj.PreRoot = verifNondetString("pre")
 	pj.PostRoot = verifNondetString("post")
 	n := verifNondetLen("n", 1)
@@ -129,7 +129,11 @@ func VerifHarness_C16_InsertionStrict() {
 	m := verifNondetLen("m", 1)
 	pj.MerkleProofs = make([][]string, m)
 	for i := 0; i < m; i++ {
-		pj.MerkleProofs[i] = []string{verifNondetString(verifName("mp", i))}
+		k := verifNondetLen(verifName("mp.len", i), 2)
+		pj.MerkleProofs[i] = make([]string, k)
+		for j := 0; j < k; j++ {
+			pj.MerkleProofs[i][j] = verifNondetString(verifName2("mp", i, j))
+		}
 	}
 	js, err := json.Marshal(pj)
 	verifAssume(err == nil)
@@ -138,14 +142,16 @@ func VerifHarness_C16_InsertionStrict() {
 		all = all && verifIsNumber(pj.IdComms[i])
 	}
 	for i := 0; i < m; i++ {
-		all = all && verifIsNumber(pj.MerkleProofs[i][0])
+		for j := 0; j < len(pj.MerkleProofs[i]); j++ {
+			all = all && verifIsNumber(pj.MerkleProofs[i][j])
+		}
 	}
 	var q InsertionParameters
 	err = q.UnmarshalJSON(js)
 	verifAssert((err == nil) == all, "decoding succeeds exactly when every numeric string is a number (no silent value for a non-number)")
 	if err == nil && all {
 		verifAssert(verifBigEq(q.InputHash, verifNumVal(pj.InputHash)) && verifBigEq(q.PreRoot, verifNumVal(pj.PreRoot)) && verifBigEq(q.PostRoot, verifNumVal(pj.PostRoot)), "decoded roots/hash are the values the strings denote")
-		verifAssert(q.StartIndex == pj.StartIndex && len(q.IdComms) == n && len(q.MerkleProofs) == m, "decoded index and dimensions are those of the document")
+		verifAssert(q.StartIndex == uint32(pj.StartIndex) && len(q.IdComms) == n && len(q.MerkleProofs) == m, "decoded index and dimensions are those of the document")
 	}
 }
 
@@ -154,7 +160,7 @@ func VerifHarness_C16_DeletionStrict() {
 	pj.InputHash = verifNondetString("hash")
 	pj.PreRoot = verifNondetString("pre")
 	pj.PostRoot = verifNondetString("post")
-	d := verifNondetLen("d", 2)
+	d := verifNondetLen("d", 1)
 	pj.DeletionIndices = make([]uint32, d)
 	for i := 0; i < d; i++ {
 		pj.DeletionIndices[i] = verifNondetU32(verifName("idx", i))
@@ -164,11 +170,25 @@ func VerifHarness_C16_DeletionStrict() {
 	for i := 0; i < n; i++ {
 		pj.IdComms[i] = verifNondetString(verifName("idc", i))
 	}
+	m := verifNondetLen("m", 1)
+	pj.MerkleProofs = make([][]string, m)
+	for i := 0; i < m; i++ {
+		k := verifNondetLen(verifName("mp.len", i), 2)
+		pj.MerkleProofs[i] = make([]string, k)
+		for j := 0; j < k; j++ {
+			pj.MerkleProofs[i][j] = verifNondetString(verifName2("mp", i, j))
+		}
+	}
 	js, err := json.Marshal(pj)
 	verifAssume(err == nil)
 	all := verifIsNumber(pj.InputHash) && verifIsNumber(pj.PreRoot) && verifIsNumber(pj.PostRoot)
 	for i := 0; i < n; i++ {
 		all = all && verifIsNumber(pj.IdComms[i])
+	}
+	for i := 0; i < m; i++ {
+		for j := 0; j < len(pj.MerkleProofs[i]); j++ {
+			all = all && verifIsNumber(pj.MerkleProofs[i][j])
+		}
 	}
 	var q DeletionParameters
 	err = q.UnmarshalJSON(js)
@@ -180,4 +200,14 @@ func VerifHarness_C16_DeletionStrict() {
 			verifAssert(q.DeletionIndices[i] == pj.DeletionIndices[i], "decoded indices are those of the document")
 		}
 	}
+}
+
+// Native-only replay of the structural obligation "index fields of the JSON mirror structs are uint32": an index outside 32 bits must be rejected.
+func VerifHarness_C16_IndexRange() {
+	var q InsertionParameters
+	err := json.Unmarshal([]byte(`{"inputHash":"0x1","startIndex":4294967296,"preRoot":"0x1","postRoot":"0x1","identityCommitments":[],"merkleProofs":[]}`), &q)
+	verifAssert(err != nil, "insertion startIndex 2^32 is rejected")
+	var d DeletionParameters
+	err = json.Unmarshal([]byte(`{"inputHash":"0x1","deletionIndices":[1,4294967301],"preRoot":"0x1","postRoot":"0x1","identityCommitments":[],"merkleProofs":[]}`), &d)
+	verifAssert(err != nil, "deletion index 2^32+5 is rejected")
 }
